@@ -299,6 +299,50 @@ where
     Some(format!("{}|{}", cmp_group(&x, &y), cmp_group(&y, &x)))
 }
 
+/// Serialisation (feature `serde`): JSON text of the value, of its amount and of its unit, and
+/// what deserialising the text gives back.
+pub fn ser_ops<Q>(op: &str, a: &[&str]) -> Option<String>
+where
+    Q: Quantity + serde::Serialize + serde::de::DeserializeOwned,
+    Q::UnitType: serde::Serialize + serde::de::DeserializeOwned,
+{
+    if op != "ser" {
+        return None;
+    }
+    let un = unit_at::<Q::UnitType>(a[0].parse().expect("unit index"));
+    let q = Q::new(dec_amt(a[1]), un);
+    Some(guard(|| {
+        let qj = serde_json::to_string(&q).expect("ser qty");
+        let aj = serde_json::to_string(&q.amount()).expect("ser amount");
+        let uj = serde_json::to_string(&un).expect("ser unit");
+        // value tree: same content as the text?
+        let tree = serde_json::to_value(&q).expect("to_value");
+        let tree_ok = serde_json::from_str::<serde_json::Value>(&qj).map(|v| v == tree).unwrap_or(false);
+        let back = match serde_json::from_str::<Q>(&qj) {
+            Ok(b) => qstr(b),
+            Err(e) => format!("de-error:{}", e.to_string().replace(' ', "_")),
+        };
+        let back_tree = match serde_json::from_value::<Q>(tree) {
+            Ok(b) => qstr(b),
+            Err(e) => format!("de-error:{}", e.to_string().replace(' ', "_")),
+        };
+        let uback = match serde_json::from_str::<Q::UnitType>(&uj) {
+            Ok(b) => ix_of(b).to_string(),
+            Err(_) => "de-error".to_string(),
+        };
+        // the amount's JSON text read back with an exactly rounding parser
+        let aparsed = match parse_amount(aj.trim_matches('"')) {
+            Some(x) => enc(x),
+            None => "unparsable".to_string(),
+        };
+        format!(
+            "h{} h{} h{} {} {} {} {} {}",
+            hex(&qj), hex(&aj), hex(&uj), if tree_ok { "tree=text" } else { "tree!=text" },
+            back.replace(' ', ","), back_tree.replace(' ', ","), uback, aparsed
+        )
+    }))
+}
+
 /// Operations of quantity types with a reference unit.
 pub fn ref_ops<Q>(op: &str, a: &[&str]) -> Option<String>
 where
